@@ -644,7 +644,7 @@ fn run_program(fl: Flavour, cap: usize, steps: usize, rng: &mut Rng, tiny: bool)
     }
     let ntx = w.txs.len();
     let nrx = w.rxs.len();
-    let action = rng.weighted(&[10, 10, 8, 8, 6, 6, 5, 3, 3, 2, 2, 3, 4]);
+    let action = rng.weighted(&[10, 10, 8, 8, 6, 6, 5, 3, 3, 2, 2, 3, 4, 3]);
     match action {
       // spawn async send forms
       0 => {
@@ -876,7 +876,32 @@ fn run_program(fl: Flavour, cap: usize, steps: usize, rng: &mut Rng, tiny: bool)
         }
       }
       // mid-program quiescence check
-      _ => w.quiescence_check("mid-program"),
+      12 => w.quiescence_check("mid-program"),
+      // A pending `Stream` poll left a registration inside the *receiver*. Abandon the polling task and,
+      // in the same step, end that handle's async life (convert it to sync, or drop it): the handle must
+      // take its registration with it, or the next wake is spent on a dead entry.
+      _ => {
+        let p: Vec<usize> = w.pending().into_iter().filter(|&t| w.tasks[t].form == Form::StreamNext).collect();
+        if p.is_empty() {
+          continue;
+        }
+        let ti = p[rng.below(p.len() as u64) as usize];
+        let hidx = w.tasks[ti].hidx;
+        if hidx == 0 && rng.chance(1, 2) {
+          continue; // receiver 0 is mostly kept for the final drain
+        }
+        w.cancel_task(ti); // drops only the harness's poll_fn wrapper
+        if w.panicked.is_some() {
+          continue;
+        }
+        if hidx != 0 && rng.chance(1, 2) {
+          w.note(format!("drop rx{} right after abandoning its pending stream poll", w.rxs[hidx].id));
+          drop_rx(&mut w, hidx);
+        } else {
+          w.note(format!("rx{}.to_sync() right after abandoning its pending stream poll", w.rxs[hidx].id));
+          w.rx_to_sync(hidx);
+        }
+      }
     }
   }
   // ---- end of script: quiescence check, then tear down and drain
